@@ -151,22 +151,25 @@ func rtspOpenSeeds(secure bool) []*Seed {
 	}
 	tcp, udp := tr{"AVP", false}, tr{"AVP", true}
 	stcp, sudp := tr{"SAVP", false}, tr{"SAVP", true}
+	// the requests of the sibling sessions differ in a Transport header or a track number only: their byte-level
+	// deviations are enumerated (thorough tier) for one TCP and one UDP session per listener
+	nobytes := func(s *Seed) *Seed { s.NoBytes = true; return s }
 	var out []*Seed
 	if !secure {
 		out = append(out,
-			read("open-read-two-tracks-tcp", true, []int{0, 1}, []tr{tcp, tcp}),
+			read("open-read-two-tracks-tcp", false, []int{0, 1}, []tr{tcp, tcp}),
 			read("open-read-two-tracks-udp", true, []int{0, 1}, []tr{udp, udp}),
-			read("open-read-same-setup-twice-tcp", true, []int{0, 0}, []tr{tcp, tcp}),
-			read("open-read-same-setup-twice-udp", true, []int{1, 1}, []tr{udp, udp}),
-			read("open-read-tcp-then-udp", true, []int{0, 1}, []tr{tcp, udp}),
+			nobytes(read("open-read-same-setup-twice-tcp", true, []int{0, 0}, []tr{tcp, tcp})),
+			nobytes(read("open-read-same-setup-twice-udp", true, []int{1, 1}, []tr{udp, udp})),
+			nobytes(read("open-read-tcp-then-udp", true, []int{0, 1}, []tr{tcp, udp})),
 		)
 	} else {
 		out = append(out,
-			read("open-read-two-tracks-tcp", true, []int{0, 1}, []tr{tcp, tcp}),
-			read("open-read-same-setup-twice-tcp", true, []int{0, 0}, []tr{tcp, tcp}),
-			read("open-read-two-tracks-tcp-srtp", true, []int{0, 1}, []tr{stcp, stcp}),
+			nobytes(read("open-read-two-tracks-tcp", true, []int{0, 1}, []tr{tcp, tcp})),
+			nobytes(read("open-read-same-setup-twice-tcp", true, []int{0, 0}, []tr{tcp, tcp})),
+			nobytes(read("open-read-two-tracks-tcp-srtp", true, []int{0, 1}, []tr{stcp, stcp})),
 			read("open-read-two-tracks-udp-srtp", true, []int{0, 1}, []tr{sudp, sudp}),
-			read("open-read-same-setup-twice-udp-srtp", true, []int{0, 0}, []tr{sudp, sudp}),
+			nobytes(read("open-read-same-setup-twice-udp-srtp", true, []int{0, 0}, []tr{sudp, sudp})),
 		)
 	}
 	// a publisher session: ANNOUNCE, SETUP of both tracks, RECORD, two RTP packets and a sender report, TEARDOWN
@@ -235,7 +238,7 @@ func rtmpOpenSeeds(listener string, port int, transport string) []*Seed {
 	// the handshake and the three control messages (6 messages) are covered by the closed world's "play" seed
 	out := []*Seed{
 		// an Enhanced RTMP reader (fourCcList in connect), as current players are
-		rtmpOpenSeed(listener, port, transport, "open-play-enhanced", true, 6, []message.Message{
+		rtmpOpenSeed(listener, port, transport, "open-play-enhanced", false, 6, []message.Message{
 			connect(openReadPath, tcRead, amf0.StrictArray{"av01", "vp09", "hvc1", "Opus"}),
 			createStream(2),
 			&message.UserControlSetBufferLength{BufferLength: 0x64},
@@ -252,6 +255,7 @@ func rtmpOpenSeeds(listener string, port int, transport string) []*Seed {
 	for _, s := range out {
 		s.Streams = true
 	}
+	out[1].NoBytes = true // same messages as the first but for two strings
 	// a publisher: connect, releaseStream, FCPublish, createStream, publish, metadata, H264 and AAC configuration, one
 	// access unit of each
 	avcc := &mp4.AVCDecoderConfiguration{AnyTypeBox: mp4.AnyTypeBox{Type: mp4.BoxTypeAvcC()}, ConfigurationVersion: 1, Profile: 0x42,
@@ -323,6 +327,7 @@ func hlsOpenSeeds() []*Seed {
 		get("part", p+"HLSPARTECHOED"+q),
 		get("page", p),
 	}}
+	query.NoBytes = true // the requests differ from the first session's in where the session id is
 	return []*Seed{cookie, query}
 }
 
